@@ -41,6 +41,8 @@ type LexSpec struct {
 	Prods []LProd
 	// SynLits: string literals of a (trivial) syntax part; they win over every named pattern
 	SynLits []string
+	// Unreferenced: tokens that the syntax part does not mention
+	Unreferenced []string
 }
 
 func C(r rune) LTerm       { return LTerm{Kind: LChar, Lo: r, Hi: r} }
@@ -135,7 +137,13 @@ func (l *LexSpec) BNF() string {
 			add(`"` + s + `"`)
 		}
 		for _, p := range l.Prods {
-			if !strings.HasPrefix(p.Name, "!") && !strings.HasPrefix(p.Name, "_") {
+			unref := false
+			for _, u := range l.Unreferenced {
+				if u == p.Name {
+					unref = true
+				}
+			}
+			if !strings.HasPrefix(p.Name, "!") && !strings.HasPrefix(p.Name, "_") && !unref {
 				add(p.Name)
 			}
 		}
@@ -368,6 +376,20 @@ var LexSpecs = []*LexSpec{
 			{"_d", Alt(Seq(C('a'), C('b')), Seq(C('a')))},
 			{"x", Seq(Ref("_d"), Ref("_d"))},
 		}, SynLits: []string{"q"}},
+	{Name: "L12", Why: "overlapping named tokens where the earlier-declared one reaches its accepting item through a regular definition and the later one is written directly",
+		Prods: []LProd{
+			{"_hex", Alt(Seq(R('0', '9')), Seq(R('a', 'f')))},
+			{"hexnum", Seq(Ref("_hex"), Rep(Seq(Ref("_hex"))))},
+			{"decnum", Seq(R('0', '9'), Rep(Seq(R('0', '9'))))},
+			{"word", Seq(R('a', 'z'), Rep(Seq(R('a', 'z'))))},
+		}, SynLits: []string{"q"}},
+	{Name: "L13", Why: "tokens that the syntax part never mentions (they must still be numbered and recognised)",
+		Prods: []LProd{
+			{"!ws", Seq(C(' '))},
+			{"id", Seq(R('a', 'z'), Rep(Seq(R('a', 'z'))))},
+			{"num", Seq(R('0', '9'), Rep(Seq(R('0', '9'))))},
+			{"op", Alt(Seq(C('+')), Seq(C('-'), C('>')))},
+		}, SynLits: []string{"let"}, Unreferenced: []string{"id", "op"}},
 	{Name: "L10", Why: "declaration order between equal patterns; token vs ignored token with the same text",
 		Prods: []LProd{
 			{"first", Seq(C('a'), C('b'))},
